@@ -1,6 +1,7 @@
 import GqlVerif.Props.C09
 import GqlVerif.Proofs.C09Options
 import GqlVerif.Proofs.C09Normalization
+import GqlVerif.Proofs.ComposedC09
 open GqlVerif.C09
 #print axioms field_wire_indep
 #print axioms enum_wire_indep
@@ -32,3 +33,11 @@ open GqlVerif.C09
 #print axioms GqlVerif.C09N.witness_prelude_name
 #print axioms GqlVerif.C09N.witness_idStable
 #print axioms GqlVerif.C09N.witness_raw_reference
+#print axioms GqlVerif.C09N.witness_fieldsWF
+-- the instance of scalars_module_wire_invariant is generated; FieldsWF of generated modules (Proofs/ComposedC09.lean)
+#print axioms GqlVerif.Composed.moduleParts_exParts
+#print axioms GqlVerif.Composed.scalars_module_wire_invariant_generated
+#print axioms GqlVerif.Composed.fieldsWF_of_members_nodup
+#print axioms GqlVerif.Composed.fieldsWF_of_wellScoped
+#print axioms GqlVerif.Composed.fieldsWF_of_generated
+#print axioms GqlVerif.Composed.fieldsWF_fails_on_generated
